@@ -56,14 +56,28 @@ UNIT = {
         {'kind': 'fn', 'src': B, 'path': 'fn eval_function_positional', 'key': 'purity::eval_function_positional', 'props': P, 'auto_props': A, 'loops': 1, 'ret': 'r',
          'sig_rewrite': [(r'^(\s*)fn ', r'\1pub fn '), (r'scope: &Scope', 'scope: &mut Scope')],
          'rewrites': [('R3',), ('R1', 0), ('RX', 'R11', r'FeelContext::default\(\)', 'feel_context_default()', None)],
-         'ensures': [('caller_scope_untouched', STACK_SAME)],
-         'loop_specs': {0: {'invariant': [('scope_not_touched', 'scope.contexts@ == old(scope).contexts@')]}}},
+         'body_prefix': PRE,
+         'ensures': [('caller_scope_untouched', STACK_SAME),
+                     ('too_few_arguments_is_null', 'arguments@.len() < parameters@.len() ==> r is Null', ['C01']),
+                     ('parameters_bound_to_coerced_arguments_in_order', 'arguments@.len() >= parameters@.len() ==> exists |ctx: FeelContext| #[trigger] call_result(old(scope).contexts@, ctx, *body, result_type) == r '
+                                                                        '&& ctx.0@ =~= bind_pos(parameters@, arguments@, parameters@.len() as int)', ['C01'])],
+         'loop_specs': {0: {'invariant': [('scope_not_touched', 'scope.contexts@ == old(scope).contexts@'),
+                                          ('bound_so_far', 'i <= parameters@.len() && i <= arguments@.len() && ctx.0@ =~= bind_pos(parameters@, arguments@, i as int)')],
+                            'body_prefix': PRE}}},
         {'kind': 'fn', 'src': B, 'path': 'fn eval_function_named', 'key': 'purity::eval_function_named', 'props': P, 'auto_props': A, 'loops': 1, 'ret': 'r',
          'sig_rewrite': [(r'^(\s*)fn ', r'\1pub fn '), (r'scope: &Scope', 'scope: &mut Scope')],
          'rewrites': [('R3',), ('RX', 'R2v', r'for \(parameter_name, parameter_type\) in parameters \{', 'for (parameter_name, parameter_type) in parameters.iter() {', 1),
                       ('RX', 'R11', r'FeelContext::default\(\)', 'feel_context_default()', None)],
-         'ensures': [('caller_scope_untouched', STACK_SAME)],
-         'loop_specs': {0: {'invariant': [('scope_not_touched', 'scope.contexts@ == old(scope).contexts@')]}}},
+         'body_prefix': PRE,
+         'ensures': [('caller_scope_untouched', STACK_SAME),
+                     ('missing_named_argument_is_null', '(arguments is NamedParameters && !all_named(parameters@, arguments->NamedParameters_0@)) ==> r is Null', ['C01']),
+                     ('parameters_bound_to_coerced_arguments_by_name', '(arguments is NamedParameters && all_named(parameters@, arguments->NamedParameters_0@)) ==> exists |ctx: FeelContext| '
+                      '#[trigger] call_result(old(scope).contexts@, ctx, *body, result_type) == r && ctx.0@ =~= bind_named(parameters@, arguments->NamedParameters_0@, parameters@.len() as int)', ['C01'])],
+         'loop_specs': {0: {'iter_name': 'itp', 'invariant': [('scope_not_touched', 'scope.contexts@ == old(scope).contexts@'),
+                                          ('args', '*arguments is NamedParameters && arguments->NamedParameters_0 == *map'),
+                                          ('seq', 'itp.seq() =~= parameters@.map_values(|c: (Name, FeelType)| &c)'),
+                                          ('bound_so_far', 'ctx.0@ =~= bind_named(parameters@, map@, itp.index@ as int) && forall |j: int| 0 <= j < itp.index@ ==> map@.contains_key((#[trigger] parameters@[j]).0)')],
+                            'body_prefix': PRE + '\nproof { assert(*parameter_name == parameters@[itp.index@ as int].0 && *parameter_type == parameters@[itp.index@ as int].1); }'}}},
         {'kind': 'closure', 'src': B, 'path': 'fn build_filter', 'name': 'filter', 'key': 'purity::build_filter', 'props': P, 'auto_props': A, 'loops': 1, 'ret': 'r',
          'lead_params': ['scope: &mut Scope'], 'extra_params': ['rhe: &Evaluator', 'name_item: Name'],
          'rewrites': [('R3',), ('RX', 'R8e', r'\b(lhe|rhe)\(scope\)', r'\1.call(scope)', 3),
@@ -124,7 +138,7 @@ UNIT = {
         {'kind': 'fn', 'src': B, 'path': 'fn eval_function_definition', 'key': 'purity::eval_function_definition', 'props': P, 'auto_props': A, 'loops': 0, 'ret': 'r',
          'sig_rewrite': [(r'^(\s*)fn ', r'\1pub fn '), (r'scope: &Scope', 'scope: &mut Scope')],
          'rewrites': [('R3',), ('RX', 'R8e', r'body\.evaluate\(scope\)', 'function_body_evaluate(body, scope)', 1)],
-         'ensures': [('caller_scope_untouched', STACK_SAME)]},
+         'ensures': [('caller_scope_untouched', STACK_SAME), ('body_over_the_argument_context_then_coerced', 'r == call_result(old(scope).contexts@, *ctx, *body, result_type)', ['C01'])]},
     ],
 }
 
@@ -229,3 +243,9 @@ ASSUMPTIONS = ['R8: Scope.contexts is RefCell<Vec<FeelContext>>; the RefCell is 
 NOT_DECIDED = {'C13': ['repeatability of values across evaluation histories (whole-history; follows from scope neutrality only for evaluators without interior state, which is not proved)',
                        'a failed parse may leave temporary contexts on the parsing scope (the property only speaks of successful parses)',
                        'balance of begin/end actions over a derivation is a grammar-level fact (A-grammar)']}
+
+# fall-back for the invocation functions (also decides them when a rewritten loop leaves the extractor's reach)
+BOUNDED = {'C01': [{'name': 'function-invocation-arity', 'driver': 'feelcases', 'args': ['/verif/replay/cases/C01_invocation.txt'],
+                    'functions': ['eval_function_positional', 'eval_function_named', 'eval_function_definition (feel-evaluator builders.rs)'],
+                    'bound': '29 generated calls: user-defined functions of arity 0..3 called positionally with 0..arity arguments and by name with every non-empty subset of the parameter names (too few / missing arguments give null, '
+                             'a complete call gives the value), typed parameters coercing or nulling the argument, and a missing parameter not captured from the caller (bounded duplicate of the Verus contracts)'}]}
